@@ -26,6 +26,13 @@ pub struct EventLog {
   pub record_reads: bool,
   pub overflow: bool,
   pub len: usize,
+  /// totals since `start`, kept even when the ring is full
+  pub delivered_clocks: u64,
+  pub consumed_cycles: u64,
+  /// when non-zero: a monitor-armed bound on `delivered_clocks`; exceeding it
+  /// panics (in ordinary, unwinding Rust code: MemoryAreas::run_clock_cycles),
+  /// which turns "this call never returns" into a verdict in emulated time
+  pub deliver_limit: u64,
   pub events: [Event; EVENT_CAPACITY],
 }
 
@@ -34,6 +41,9 @@ pub static mut LOG: EventLog = EventLog {
   record_reads: false,
   overflow: false,
   len: 0,
+  delivered_clocks: 0,
+  consumed_cycles: 0,
+  deliver_limit: 0,
   events: [Event { kind: 0, a: 0, b: 0 }; EVENT_CAPACITY],
 };
 
@@ -53,6 +63,16 @@ pub fn event(kind: u8, a: u32, b: u32) {
     } else {
       log.overflow = true;
     }
+    if kind == EV_CONSUME {
+      log.consumed_cycles += a as u64;
+    }
+    if kind == EV_DELIVER {
+      log.delivered_clocks += a as u64;
+      if log.deliver_limit != 0 && log.delivered_clocks > log.deliver_limit {
+        log.deliver_limit = 0;
+        panic!("verif: emulated-time limit exceeded");
+      }
+    }
   }
 }
 
@@ -62,6 +82,9 @@ pub fn start(record_reads: bool) {
     let log = &mut *core::ptr::addr_of_mut!(LOG);
     log.len = 0;
     log.overflow = false;
+    log.delivered_clocks = 0;
+    log.consumed_cycles = 0;
+    log.deliver_limit = 0;
     log.record_reads = record_reads;
     log.enabled = true;
   }
@@ -86,6 +109,21 @@ pub fn events() -> &'static [Event] {
   unsafe {
     let log = &*core::ptr::addr_of!(LOG);
     &log.events[..log.len]
+  }
+}
+
+/// (clocks delivered to the devices, machine cycles consumed) since `start`
+pub fn totals() -> (u64, u64) {
+  unsafe {
+    let log = &*core::ptr::addr_of!(LOG);
+    (log.delivered_clocks, log.consumed_cycles)
+  }
+}
+
+/// Arm the emulated-time bound (see `EventLog::deliver_limit`).
+pub fn set_deliver_limit(limit: u64) {
+  unsafe {
+    (*core::ptr::addr_of_mut!(LOG)).deliver_limit = limit;
   }
 }
 
